@@ -434,11 +434,8 @@ func (u *skUT) apply(op kop) string {
 		u.lossy = false
 	case "vanish":
 		// every weight is scaled down until it underflows to exactly 0: from then on the sketch holds nothing a float
-		// can represent and must behave as an empty one (plain variant only: the exact statistics keep the extremes of
-		// values whose weight, mathematically, is still positive)
-		if u.cfg.exact {
-			return ""
-		}
+		// can represent and must behave as an empty one - the exact statistics included, whose count is then 0: they
+		// must not report, after later additions, extremes or a sum that come from what is gone
 		for i := 0; i < 3; i++ {
 			if err := u.s.Reweight(0x1p-600); err != nil {
 				return fmt.Sprintf("Reweight(2^-600) refused: %v", err)
